@@ -157,6 +157,9 @@ def _ss_worker(args):
     outcome = {}
     for fin in (False, True):
         r = e2e.run_real(src, fin, False)
+        if r["exc"] and r["exc"][0] == "Timeout":
+            outcome["harness-time-limit"] = outcome.get("harness-time-limit", 0) + 1
+            continue
         if r["exc"]:
             failing.append({"what": f"raise: Analysis.run raised {r['exc']}", "sig": [cid, "raise", r["exc"][0], r["exc"][1]],
                             "input": {"src": src, "opts": {"fin": fin, "strict": False}}, "expected": "a result", "observed": r["exc"]})
